@@ -351,6 +351,8 @@ class DiffLoc(WindowBase):
     qual = 'diff_loc'
     props = ['C07', 'C12']
     dfs_pytype = 'deque'
+    unclaimed_outcomes = {'raise:IndexError': 'diff_loc: IndexError from dfs[0] on an emptied deque is not excluded by the loop '
+                                              'invariant (that the newest row is never evicted is not proved); nothing is claimed about that path'}
     assumptions = ('the index is non-decreasing across the concatenation of all frames (precondition of the property); hence '
                    'frame.index.min()/max() are the index of its first/last row and max over the frames is the index of the last row',
                    'frame.loc[:b] on a sorted index returns the prefix of rows with index <= b (label slices are inclusive) (trusted)',
